@@ -38,8 +38,34 @@ theorem External.srcVal {srcs : List (Src α)} (h : External srcs) (w w' : World
 theorem External.sub {srcs sub : List (Src α)} (h : External srcs) (hs : ∀ s ∈ sub, s ∈ srcs) : External sub :=
   fun s hm => h s (hs s hm)
 
-theorem assignWithRangeFwd_sat (cfg : Cfg) (c : Nat) (srcs : List (Src α)) (w : World α)
-    (hv : VecOK cfg w c) (hl : Ledger w) (hNmax : (w.hdr c).N ≤ cfg.maxSize) (hext : External srcs) :
+/-- sources that are not modified by reading them and do not live in `c`'s own storage: values from outside, or copies of
+    live elements of blocks that existed before the call and are neither `c`'s buffer nor its in-object buffer
+    (the elements of ANOTHER container: copy assignment) -/
+structure Foreign (cfg : Cfg) (w : World α) (c : Nat) (srcs : List (Src α)) : Prop where
+  nonmoving : NonMoving cfg srcs
+  live  : ∀ s ∈ srcs, SrcLive w s
+  apart : ∀ s ∈ srcs, ∀ b i, s.loc = some (b, i) → b ≠ (w.hdr c).data ∧ b ≠ (w.hdr c).inl ∧ b < w.next
+
+theorem External.foreign {cfg : Cfg} {srcs : List (Src α)} (h : External srcs) (w : World α) (c : Nat) : Foreign cfg w c srcs :=
+  ⟨h.nonmoving, h.live w, fun s hs b i hl' => by rw [h s hs] at hl'; cases hl'⟩
+
+/-- the sources are still live, with the same values, in any world that agrees with `w` on their slots -/
+theorem Foreign.live_of {cfg : Cfg} {w w' : World α} {c : Nat} {srcs : List (Src α)} (h : Foreign cfg w c srcs)
+    (hag : ∀ s ∈ srcs, ∀ b i, s.loc = some (b, i) → (w'.mem b)[i]? = (w.mem b)[i]?) : ∀ s ∈ srcs, SrcLive w' s := by
+  intro s hs b i hl'
+  obtain ⟨v, hv⟩ := h.live s hs b i hl'
+  exact ⟨v, by rw [hag s hs b i hl']; exact hv⟩
+
+theorem Foreign.srcVal_of {cfg : Cfg} {w w' : World α} {c : Nat} {srcs : List (Src α)} (h : Foreign cfg w c srcs)
+    (hag : ∀ s ∈ srcs, ∀ b i, s.loc = some (b, i) → (w'.mem b)[i]? = (w.mem b)[i]?) : ∀ s ∈ srcs, srcVal w' s = srcVal w s :=
+  fun s hs => srcVal_congr w w' s (fun b i hl' => hag s hs b i hl')
+
+theorem Foreign.sub {cfg : Cfg} {w : World α} {c : Nat} {srcs sub : List (Src α)} (h : Foreign cfg w c srcs) (hs : ∀ s ∈ sub, s ∈ srcs) :
+    Foreign cfg w c sub :=
+  ⟨fun s hm => h.nonmoving s (hs s hm), fun s hm => h.live s (hs s hm), fun s hm => h.apart s (hs s hm)⟩
+
+theorem assignWithRangeFwd_foreign_sat (cfg : Cfg) (c : Nat) (srcs : List (Src α)) (w : World α)
+    (hv : VecOK cfg w c) (hl : Ledger w) (hNmax : (w.hdr c).N ≤ cfg.maxSize) (hext : Foreign cfg w c srcs) :
     (assignWithRangeFwd cfg c srcs w).sat
       (fun _ w' => Assigned cfg w w' c (srcs.map (srcVal w)))
       (fun e w' => InsBasic cfg w w' c ∧ (e = .length → w' = w) ∧ ((w.hdr c).cap < srcs.length → Strong w w')) := by
@@ -74,7 +100,9 @@ theorem assignWithRangeFwd_sat (cfg : Cfg) (c : Nat) (srcs : List (Src α)) (w :
     obtain ⟨hnb, hm2, ho2, hlv2, hn2, hh2, ht2, hu2⟩ := h2
     subst hnb
     obtain ⟨hb2, hraw2, hoth2⟩ := Built.of_alloc (c := c) hv hl hm2 ho2 hlv2 hn2 hh2 ht2 hu2
-    have hfill := uninitGen_nonmoving_sat cfg w.next 0 srcs 0 w2 hext.nonmoving (hext.live w2) (fun j h => by omega)
+    have hag2 : ∀ s ∈ srcs, ∀ b i, s.loc = some (b, i) → (w2.mem b)[i]? = (w.mem b)[i]? := fun s hs b i hl' => by
+      rw [hoth2 b (by have := (hext.apart s hs b i hl').2.2; omega)]
+    have hfill := uninitGen_nonmoving_sat cfg w.next 0 srcs 0 w2 hext.nonmoving (hext.live_of hag2) (fun j h => by omega)
       (fun k hk => hraw2 _ (by omega))
     refine sat_bind (sat_tryCatch (Q := fun _ w3 => Built cfg w w3 c ncap ∧
         (∀ k (h : k < srcs.length), (w3.mem w.next)[k]? = some (.obj (srcVal w srcs[k]))) ∧
@@ -89,7 +117,7 @@ theorem assignWithRangeFwd_sat (cfg : Cfg) (c : Nat) (srcs : List (Src α)) (w :
       · intro k hk
         have := hv3 k hk
         simp only [Nat.zero_add] at this
-        rw [this, hext.srcVal w w2 _ (List.getElem_mem hk)]
+        rw [this, hext.srcVal_of hag2 _ (List.getElem_mem hk)]
       · intro i h1 h2
         exact isRaw_of_eq (hrest3 _ i (by intro ⟨_, _, h⟩; omega)) (hraw2 i h2)
     · intro e w3 ⟨⟨he, _⟩, hc3, hr3, hrest3⟩
@@ -119,19 +147,22 @@ theorem assignWithRangeFwd_sat (cfg : Cfg) (c : Nat) (srcs : List (Src α)) (w :
   have hfits : srcs.length ≤ (w.hdr c).cap := by omega
   generalize hn : (w.hdr c).size = n at *
   generalize hdd : (w.hdr c).data = d at *
+  have hnotd : ∀ s ∈ srcs, ∀ b i, s.loc = some (b, i) → b ≠ d := fun s hs b i hl' => by
+    have := (hext.apart s hs b i hl').1; rw [hdd] at this; exact this
   by_cases hmore : n < srcs.length
   · ------------------------------------------------------------------ grow in place
     rw [if_pos (decide_eq_true hmore)]
     have htl : (srcs.take n).length = n := by simp; omega
-    have hext1 : External (srcs.take n) := hext.sub (fun s hs => List.mem_of_mem_take hs)
-    have hext2 : External (srcs.drop n) := hext.sub (fun s hs => List.mem_of_mem_drop hs)
+    have hext1 : Foreign cfg w c (srcs.take n) := hext.sub (fun s hs => List.mem_of_mem_take hs)
+    have hext2 : Foreign cfg w c (srcs.drop n) := hext.sub (fun s hs => List.mem_of_mem_drop hs)
+
     have hobj0 : ∀ k, k < (srcs.take n).length → IsObj w d (0 + k) := fun k hk => by
       rw [← hdd]; simpa using hv.objs k (by rw [htl] at hk; omega)
     have hasg := Res.sat_and
-      (assignGen_nonmoving_sat cfg d (srcs.take n) 0 w hext1.nonmoving hobj0 (hext1.live w)
-        (fun s hs b i hl' => by rw [hext1 s hs] at hl'; cases hl'))
-      (assignGen_touched cfg d (srcs.take n) 0 w hobj0 (hext1.live w)
-        (fun k hk => by rw [hext1 _ (List.getElem_mem hk)]; intro h; cases h))
+      (assignGen_nonmoving_sat cfg d (srcs.take n) 0 w hext1.nonmoving hobj0 hext1.live
+        (fun s hs b i hl' h => hnotd s (List.mem_of_mem_take hs) b i hl' h.1))
+      (assignGen_touched_nm cfg d (srcs.take n) 0 w hext1.nonmoving hobj0 hext1.live
+        (fun s hs b i hl' h => hnotd s (List.mem_of_mem_take hs) b i hl' h.1))
     have hm0 : MidIns w w c 0 srcs.length n := by
       have := MidIns.start hv 0 srcs.length hfits
       rw [hn] at this; exact this
@@ -153,7 +184,10 @@ theorem assignWithRangeFwd_sat (cfg : Cfg) (c : Nat) (srcs : List (Src α)) (w :
         have := hm1.raws (n + k) (by omega) (by omega)
         rw [hdd] at this
         simpa using this
-      have hcon := uninitGen_nonmoving_sat cfg d n (srcs.drop n) 0 w1 hext2.nonmoving (hext2.live w1) (fun j h => by omega) hraw1
+      have hag1 : ∀ s ∈ srcs, ∀ b i, s.loc = some (b, i) → (w1.mem b)[i]? = (w.mem b)[i]? := fun s hs b i hl' =>
+        hrest1 b i (fun h => hnotd s hs b i hl' h.1)
+      have hcon := uninitGen_nonmoving_sat cfg d n (srcs.drop n) 0 w1 hext2.nonmoving
+        (hext2.live_of (fun s hs => hag1 s (List.mem_of_mem_drop hs))) (fun j h => by omega) hraw1
       refine sat_bind hcon (fun _ w2 ⟨hc2, hv2, hrest2⟩ => ?_) ?_
       · have hss : setSize c srcs.length w2 = .ok () { w2 with hdr := upd w2.hdr c { w2.hdr c with size := srcs.length } } := rfl
         rw [hss]
@@ -171,7 +205,7 @@ theorem assignWithRangeFwd_sat (cfg : Cfg) (c : Nat) (srcs : List (Src α)) (w :
           · have hk2 : k - n < (srcs.drop n).length := by simp; omega
             have := hv2 (k - n) hk2
             rw [show n + 0 + (k - n) = k by omega] at this
-            rw [this, hext.srcVal w w1 _ (List.mem_of_mem_drop (List.getElem_mem hk2))]
+            rw [this, hext.srcVal_of hag1 _ (List.mem_of_mem_drop (List.getElem_mem hk2))]
             simp [show n + (k - n) = k by omega]
         have hm3 : MidIns w w3 c 0 srcs.length srcs.length := by
           have hc03 : Ctl0 w1 w3 := by
@@ -215,31 +249,25 @@ theorem assignWithRangeFwd_sat (cfg : Cfg) (c : Nat) (srcs : List (Src α)) (w :
         (fun i a b => by
           rw [hdd]
           exact isRaw_of_eq (ht1.same d i (by
-            intro hp
-            rcases hp with ⟨_, _, a3⟩ | ⟨s, hs, hl'⟩
-            · rw [htl] at a3; omega
-            · rw [hext1 s hs] at hl'; cases hl')) (by rw [← hdd]; exact hv.raws i (by omega) (by omega)))
+            intro ⟨_, _, a3⟩
+            rw [htl] at a3; omega)) (by rw [← hdd]; exact hv.raws i (by omega) (by omega)))
         (fun b i hne _ => ht1.same b i (by
           rw [hdd] at hne
-          intro hp
-          rcases hp with ⟨a1, a2, a3⟩ | ⟨s, hs, hl'⟩
-          · rw [htl] at a3; exact hne ⟨a1, by omega, by omega⟩
-          · rw [hext1 s hs] at hl'; cases hl')))
+          intro ⟨a1, a2, a3⟩
+          rw [htl] at a3; exact hne ⟨a1, by omega, by omega⟩)))
         (by omega) (by rw [he]; intro h; cases h)
   · ------------------------------------------------------------------ shrink in place
     rw [if_neg (by simpa using hmore)]
     have hobj0 : ∀ k, k < srcs.length → IsObj w d (0 + k) := fun k hk => by
       rw [← hdd]; simpa using hv.objs k (by omega)
     have hasg := Res.sat_and
-      (assignGen_nonmoving_sat cfg d srcs 0 w hext.nonmoving hobj0 (hext.live w)
-        (fun s hs b i hl' => by rw [hext s hs] at hl'; cases hl'))
-      (assignGen_touched cfg d srcs 0 w hobj0 (hext.live w)
-        (fun k hk => by rw [hext _ (List.getElem_mem hk)]; intro h; cases h))
-    have hP : ∀ b i, ((b = d ∧ 0 ≤ i ∧ i < 0 + srcs.length) ∨ ∃ s ∈ srcs, s.loc = some (b, i)) → b = (w.hdr c).data ∧ i < (w.hdr c).size := by
-      intro b i hp
-      rcases hp with ⟨a1, _, a3⟩ | ⟨s, hs, hl'⟩
-      · exact ⟨by rw [hdd]; exact a1, by omega⟩
-      · rw [hext s hs] at hl'; cases hl'
+      (assignGen_nonmoving_sat cfg d srcs 0 w hext.nonmoving hobj0 hext.live
+        (fun s hs b i hl' h => hnotd s hs b i hl' h.1))
+      (assignGen_touched_nm cfg d srcs 0 w hext.nonmoving hobj0 hext.live
+        (fun s hs b i hl' h => hnotd s hs b i hl' h.1))
+    have hP : ∀ b i, (b = d ∧ 0 ≤ i ∧ i < 0 + srcs.length) → b = (w.hdr c).data ∧ i < (w.hdr c).size := by
+      intro b i ⟨a1, _, a3⟩
+      exact ⟨by rw [hdd]; exact a1, by omega⟩
     refine sat_bind hasg (fun _ w1 ⟨⟨hc1, hv1, hrest1⟩, ht1⟩ => ?_) ?_
     · have hb1 : Basic cfg w w1 c := basic_of_touched cfg hv hl ht1 hP
       have hh1 : w1.hdr = w.hdr := hc1.hdr
@@ -274,6 +302,13 @@ theorem assignWithRangeFwd_sat (cfg : Cfg) (c : Nat) (srcs : List (Src α)) (w :
     · intro e w1 ⟨_, he, ht1⟩
       have hb1 : Basic cfg w w1 c := basic_of_touched cfg hv hl ht1 hP
       exact ⟨⟨hb1, by rw [ht1.ctl.hdr], by rw [ht1.ctl.hdr], ht1.ctl.live⟩, (fun h => by rw [he] at h; cases h), (fun h => by omega)⟩
+
+theorem assignWithRangeFwd_sat (cfg : Cfg) (c : Nat) (srcs : List (Src α)) (w : World α)
+    (hv : VecOK cfg w c) (hl : Ledger w) (hNmax : (w.hdr c).N ≤ cfg.maxSize) (hext : External srcs) :
+    (assignWithRangeFwd cfg c srcs w).sat
+      (fun _ w' => Assigned cfg w w' c (srcs.map (srcVal w)))
+      (fun e w' => InsBasic cfg w w' c ∧ (e = .length → w' = w) ∧ ((w.hdr c).cap < srcs.length → Strong w w')) :=
+  assignWithRangeFwd_foreign_sat cfg c srcs w hv hl hNmax (hext.foreign w c)
 
 theorem replicate_take {β : Type} (n k : Nat) (x : β) (h : k ≤ n) : (List.replicate n x).take k = List.replicate k x := by
   simp [List.take_replicate, Nat.min_eq_left h]
